@@ -303,8 +303,14 @@ Proof.
   unfold regime_of, blas_applicable, blas_info, blas_ravel_order.
   destruct f1 as [c1 g1], f2 as [c2 g2], fo as [co go].
   cbn [nth forallb existsb fst snd bi_view bi_call].
-  destruct (size <? threshold_small)%Z, (size <? threshold_medium)%Z, (size >? 2147483647)%Z,
-    fl, bdt, c1, g1, c2, g2, co, go; cbn; intros E; try discriminate E; auto.
+  (* whatever comparisons of the size the regenerated tests use *)
+  repeat match goal with
+  | |- context [Z.ltb ?x ?y] => destruct (Z.ltb x y)
+  | |- context [Z.leb ?x ?y] => destruct (Z.leb x y)
+  | |- context [Z.gtb ?x ?y] => destruct (Z.gtb x y)
+  | |- context [Z.geb ?x ?y] => destruct (Z.geb x y)
+  end;
+  destruct fl, bdt, c1, g1, c2, g2, co, go; cbn; intros E; try discriminate E; auto.
 Qed.
 
 Lemma lincomb_impl_correct {T} {N : Num T} {F : NumField T}
